@@ -902,7 +902,7 @@ func RunFamily(c *core.Ctx, p Plan) {
 	modes := []string{"emitter", "mqtt"}
 	maxOps, num, depth, edgeOps := p.QuickOps, 120, 18, p.EdgeOps-1
 	if !c.Quick() {
-		maxOps, num, depth, edgeOps = p.QuickOps+1, 1500, 24, p.EdgeOps
+		maxOps, num, depth, edgeOps = p.QuickOps+1, 500, 24, p.EdgeOps
 	}
 	type job struct {
 		mode string
@@ -929,7 +929,7 @@ func RunFamily(c *core.Ctx, p Plan) {
 			}
 		}})
 		initKey := `{"conn":{"c1":"new","c2":"new"},"held":{"c1":[],"c2":[]},"trie":[],"links":{"c1":[],"c2":[]},"store":{"b1":[]},"will":{"c1":{"on":false},"c2":{"on":false}}}`
-		maxWalks := 6000
+		maxWalks := 2000
 		if c.Quick() {
 			maxWalks = 250
 		}
@@ -941,9 +941,9 @@ func RunFamily(c *core.Ctx, p Plan) {
 		if maxW := 250; c.Quick() && len(walks) > maxW {
 			rng.Shuffle(len(walks), func(i, j int) { walks[i], walks[j] = walks[j], walks[i] })
 			walks = walks[:maxW]
-		} else if len(walks) > 6000 {
+		} else if len(walks) > 2000 {
 			rng.Shuffle(len(walks), func(i, j int) { walks[i], walks[j] = walks[j], walks[i] })
-			walks = walks[:6000]
+			walks = walks[:2000]
 		}
 		core.Logf("session %s/%s: %d edges exported, %d walks replayed", p.Fam, mode, g.Edges, len(walks))
 		c.Add("graph_walks_replayed", int64(len(walks)))
@@ -1107,7 +1107,7 @@ func RunFamily(c *core.Ctx, p Plan) {
 	if p.Hammer > 0 {
 		n, rounds := p.Hammer, 100
 		if !c.Quick() {
-			n, rounds = 6*p.Hammer, 250
+			n, rounds = 3*p.Hammer, 250
 		}
 		HammerStage(c, p.What, n, rounds, 1)
 	}
